@@ -738,7 +738,7 @@ def new_symdict(ex, st, name, vty, ksort=None, idx=(), fcache=None):
         if len(kt) != 1 or kt[0].sort() != ksort:
             return ex._fresh_fn(st, vty, name + '.junkval', tuple(idx), {})
         return ex._fresh_fn(st, vty, name + '.val', tuple(idx) + tuple(kt), cache)
-    return VDict(sym={'has': lambda k: pres(k), 'val': val, 'len': n})
+    return VDict(sym={'has': lambda k: pres(k), 'val': val, 'len': n, 'ksort': ksort})
 
 
 def concrete_to_symdict(ex, st, d, k):
@@ -938,6 +938,9 @@ def b_dict(ex, st, args, kwargs, node):
         d = dict(args[0].items)
         d.update({('s', k): v for k, v in kwargs.items()})
         return [(st, VDict(d))]
+    from .values import VDictItems
+    if isinstance(args[0], VDictItems) and not kwargs:
+        return [(st, args[0].d)]
     raise Unsupported('dict(...) of %r' % (args[0],))
 
 
@@ -1549,6 +1552,9 @@ def dict_m_pop(ex, st, selfv, args, kwargs, node):
 def dict_m_items(ex, st, selfv, args, kwargs, node):
     if selfv.items is not None:
         return [(st, VSeq([VSeq([key_value(k), v], kind='tuple') for k, v in selfv.items.items()], kind='list'))]
+    if selfv.sym.get('ksort') is not None:
+        from .values import VDictItems
+        return [(st, VDictItems(selfv))]
     raise Unsupported('items() of a symbolic dict')
 
 
